@@ -58,52 +58,21 @@ def slots_of(cls):
 
 
 def swallow_audit(rep, u, fn, accepted=()):
-    """every PyErr_Clear() in fn is guarded by
-    PyErr_ExceptionMatches(PyExc_AttributeError) (T edge), and no
-    swallow-everything probe (PyObject_HasAttr*) is used."""
-    f = u.func(fn)
-    g = ccfg(f)
-    clears = [n for n in g.nodes if node_calls(n, 'PyErr_Clear')]
-    bad = []
-    for c in clears:
-        guards = [n for n in g.nodes if n.kind == 'test' and
-                  show(n.e) == 'PyErr_ExceptionMatches(PyExc_AttributeError)']
-        ok = False
-        for t in guards:
-            # c must be reachable only through the T edge of some guard
-            tsucc = [m for m, lab in t.succ if lab == 'T']
-            if tsucc and g.dominated_by(c, lambda n: n is t) and \
-                    c.id not in g.reach([m for m, lab in t.succ if lab == 'F'],
-                                        avoid=lambda n: n is t, include_start=True):
-                ok = True
-        if not ok:
-            # accepted idioms
-            nxt = [m for m, lab in c.succ]
-            follows = show(nxt[0].e) if nxt and nxt[0].e is not None else ''
-            pre = [p for p, lab in c.pred]
-            prev_txt = ' '.join(show(p.e) for p in pre if p.e is not None)
-            if any(a in follows for a in accepted):
-                continue        # swallow followed by delegation to the Python twin
-            keyerr = False
-            for p_ in pre:
-                if p_.kind == 'test' and p_.e is not None and p_.e.k == 'var':
-                    defs = c_reaching(g, p_, p_.e.a[0])
-                    if defs and all(v is not None and v.k == 'call' and
-                                    v.a[0] == 'PyObject_GetItem' and
-                                    show(v.a[1][1]).startswith('str__')
-                                    for d, v in defs):
-                        keyerr = True   # item lookup with a constant str key:
-                                        # only KeyError is possible
-            if keyerr and 'getitem-keyerror' in accepted:
-                continue
-            bad.append('line %s: PyErr_Clear() after `%s`' % (c.line, prev_txt[:60]))
-    probes = [show(c)[:60] for n in g.nodes for c in node_calls(n)
-              if c.a[0] in ('PyObject_HasAttrString', 'PyObject_HasAttr')]
+    """every PyErr_Clear() in fn follows a successful
+    PyErr_ExceptionMatches(PyExc_AttributeError) test of the failure it
+    clears (or is a listed idiom), and no swallow-everything probe
+    (PyObject_HasAttr*) is used.  Decided over the path summaries."""
+    from . import csem
+    ss = csem.S(u, fn)
+    bad, n = csem.clear_audit(ss, accepted)
+    probes = sorted({show(e.e)[:60] for ps in ss for e in ps.events
+                     if e.kind == 'call' and e.name in ('PyObject_HasAttrString',
+                                                        'PyObject_HasAttr')})
     ok = not bad and not probes
     ccheck(rep, 'F4', fn, ok,
-           '%d PyErr_Clear() site(s), each guarded by '
+           '%d PyErr_Clear() event(s) on %d paths, each guarded by '
            'PyErr_ExceptionMatches(PyExc_AttributeError) (or a listed '
-           'delegation idiom); no swallow-everything probe' % len(clears) if ok else
+           'delegation idiom); no swallow-everything probe' % (n, len(ss)) if ok else
            {'unguarded_clears': bad, 'swallow_all_probes': probes,
             'why': 'the Python twin catches AttributeError only; clearing any '
                    'exception makes C return a fallback where Python raises'},
